@@ -156,6 +156,8 @@ class Bounds:
                 f = self.W.prog.fns.get(base[1][1])
                 if f is not None and f.impl_self and (f.impl_self, base[2]) in self.field_min_len:
                     lo = max(lo, self.field_min_len[(f.impl_self, base[2])])
+                if f is not None and f.impl_self and (f.impl_self, base[2]) in getattr(self, "field_max_len", {}):
+                    hi = min(hi, self.field_max_len[(f.impl_self, base[2])])
         elif k == "field" and a[2] == "0" and isinstance(a[1], tuple) and a[1][0] == "vfield":
             src = a[1][1]
             # byte count returned by recv_from / read into a buffer: at most the buffer length
@@ -330,6 +332,11 @@ class Bounds:
                         if s[0] is None:
                             extra_edges.append(("Eq", a, ("bin", "Sub", rng[2][1], ("int", s[1]))))
                             work.extend(x for x in self._atoms_of([rng[2][1]]) if x not in work)
+            if a[0] == "call" and values.strip_generics(a[1]).split("::")[-1] in ("saturating_sub", "checked_sub", "wrapping_sub") and len(a[2]) == 2 \
+                    and values.strip_generics(a[1]).split("::")[-1] == "saturating_sub":
+                extra_edges.append(("Le", a, a[2][0]))
+                extra_edges.append(("Le", ("int", 0), a))
+                work.extend(y for y in self._atoms_of([a[2][0]]) if y not in work)
             if a[0] == "call" and values.strip_generics(a[1]).split("::")[-1] == "min" and len(a[2]) == 2:
                 for x in a[2]:
                     extra_edges.append(("Le", a, x))
